@@ -116,6 +116,23 @@ func RunFallback(cfg core.Config, scope core.Scope) *core.Result {
 							}
 						}
 						if def == nil {
+							// the only assignment to the variable anywhere before the test
+							// (lwkopt := n*nb + tsize in an enclosing block)
+							cnt := 0
+							ast.Inspect(fd.Body, func(x ast.Node) bool {
+								if d, ok := x.(*ast.AssignStmt); ok && len(d.Lhs) == 1 && len(d.Rhs) == 1 && d.Pos() < ifs.Pos() {
+									if l, ok := d.Lhs[0].(*ast.Ident); ok && l.Name == wid.Name {
+										cnt++
+										def = d.Rhs[0]
+									}
+								}
+								return true
+							})
+							if cnt != 1 {
+								def = nil
+							}
+						}
+						if def == nil {
 							res.Count("fallbacks_with_unresolved_bound", 1)
 							return true
 						}
